@@ -7,7 +7,7 @@ from typing import List, Optional
 
 from .core import Result, finding, norm_construct
 from .model import AnalysisError, ClassInfo, FuncInfo, Repo
-from .structure import (attr_stores, call_name, call_target, calls_in, is_subsequence, normal_exit, path_calls, stmt_paths,
+from .structure import (arg_of, attr_stores, call_name, call_target, calls_in, is_subsequence, normal_exit, path_calls, stmt_paths,
                         subscript_stores)
 
 
@@ -53,6 +53,8 @@ def check_resume(prop: str, res: Result, fi: FuncInfo, seq_txt: str, want_mark: 
     at the first marked element, fall-through result <= 1"""
     fn = fi.node
     rule = "R-RESUME"
+    if seq_txt == "<param0>":
+        seq_txt = next((a.arg for a in fn.args.args if a.arg not in ("self", "cls")), "candles")
     loops = [n for n in fn.body if isinstance(n, ast.For)]
     rets = [n for n in fn.body if isinstance(n, ast.Return)]
     pre = [n for n in fn.body if isinstance(n, ast.If)]
@@ -165,9 +167,9 @@ def check_calculate_driver(prop: str, res: Result, repo: Repo, want=("R-SKIP", "
         for st in fn.body:
             for c in calls_in(st) if not isinstance(st, ast.For) else []:
                 if call_name(c) == "_calculate_sub_indicators":
-                    kws = {k.arg: ast.unparse(k.value) for k in c.keywords}
-                    arg = kws.get("prior_calc") or (ast.unparse(c.args[0]) if c.args else "True")
-                    seq.append(arg)
+                    callee = repo.method("hexital.core.indicator", "Indicator", "_calculate_sub_indicators")
+                    a0 = arg_of(c, callee, 0)
+                    seq.append(ast.unparse(a0) if a0 is not None else "?")
             if isinstance(st, ast.For):
                 seq.append("LOOP")
         if seq == ["True", "LOOP", "False"]:
